@@ -88,7 +88,7 @@ Theorem C03_opcode_enum :
      Oband; Obor; Obxor; Obclr; Oilt; Oult; Oile; Oule; Oigt; Ougt; Oige; Ouge;
      Oeq; Oneq; Oand; Oor; Onot; Omov; Osmov; Olshift; Orshift; Osrshift;
      Oslice; Oamov; Oindex; Ophi;
-     Ounsupported; Ounsupported; Ounsupported; Ounsupported; Ounsupported;
+     Oconcat; Obts; Obtc; Ounsupported; Ohamming;
      Ounsupported; Ounsupported].
 Proof. exact opcode_enum_ok. Qed.
 Print Assumptions C03_opcode_enum.
@@ -139,14 +139,22 @@ Print Assumptions C03_store_frame.
    the optimisation passes of C09 and Compiler.Compile), and its evaluation
    equals the outputs of the real circuit; the value of cg_wf on the real
    program is part of the compared observable.
-   PARTIAL: Lang/Ssa.v has no constructor for concat, bts, btc (and circ,
-   builtin): such instructions decode to Ounsupported, which cg_wf rejects and
-   circuit_of_ssa does not generate.  Every other opcode is covered, including
-   the four divisions with a zero divisor (Lang/CircGenDivProof.v re-proves
-   NewUDivider / NewIDivider for circuitgen's calling convention, nil quotient
-   or remainder); signed division for equal operand widths only (NewIDivider
-   zero-pads a narrower operand: finding F26).  Yao target (utils.NewParams);
-   the passes after circuitgen are C09's. *)
+   COVERED: every opcode for which Program.Circuit has a case and that can
+   occur without native circuit files — the arithmetic, bitwise, comparison,
+   logical, move / shift / slice / amov / index / phi opcodes, concat, bts, btc
+   (peephole.go), builtin (circuits.Hamming), ret; the four divisions with a
+   zero divisor, operands of any two widths and (unsigned) a narrower result
+   (Lang/CircGenDivProof.v re-proves NewUDivider / NewIDivider for circuitgen's
+   calling convention: nil quotient or remainder).  cg_wf's side conditions are
+   the width relations of a typed listing (result no wider than the operands of
+   an adder / subtractor / multiplier / bitwise operation, 1-bit results of
+   comparisons, ...) and the conditions under which the Go code itself returns
+   an error or indexes out of range (slice / amov bounds, NewMUX widths, ...).
+   NOT modelled: circ (native circuit files: Lang/Ssa.v has no term for an
+   embedded circuit with several results); decodes to Ounsupported, which
+   cg_wf rejects.  Targets: Yao (utils.NewParams) everything; GMW everything but
+   division (the Goldschmidt divider is not exact: C07 findings F31-F33).
+   The passes after circuitgen are C09's. *)
 
 (* For every SSA program p (any number of inputs and instructions, any widths)
    that satisfies the executable predicate cg_wf (at least one input wire; per
@@ -161,12 +169,22 @@ Print Assumptions C03_store_frame.
    consistent valuation.  Opcodes covered: iadd uadd isub usub imult umult idiv
    udiv imod umod (zero divisor included) band bor bxor bclr ilt ult ile ule igt
    ugt ige uge eq neq and or not mov smov lshift rshift srshift slice amov index
-   phi, and ret. *)
-Theorem C03_circuitgen_correct_partial : forall p inp,
+   phi concat bts btc builtin(hamming), and ret. *)
+Theorem C03_circuitgen_correct : forall p inp,
   cg_wf p = true ->
   eval_circuit (circuit_of_ssa p) (input_bits (sp_inputs p) inp) = eval_ssa p inp.
-Proof. exact circuitgen_correct_partial. Qed.
-Print Assumptions C03_circuitgen_correct_partial.
+Proof. exact circuitgen_correct. Qed.
+Print Assumptions C03_circuitgen_correct.
+
+(* GMW target (Params.Target = utils.TargetGMW: Kogge-Stone adders and
+   subtractors, Wallace multiplier), every program without a division
+   (cg_wf_tg true p = cg_wf p and no idiv udiv imod umod), every threshold. *)
+Theorem C03_circuitgen_correct_gmw : forall thr p inp,
+  cg_wf_tg true p = true ->
+  eval_circuit (circuit_of_ssa_gen multiplierArrayTresholds thr true p) (input_bits (sp_inputs p) inp)
+  = eval_ssa p inp.
+Proof. exact circuitgen_correct_gmw. Qed.
+Print Assumptions C03_circuitgen_correct_gmw.
 
 (* The same for every value of Params.CircMultArrayTreshold (the Karatsuba /
    array switch of NewMultiplier), with the threshold table regenerated from
@@ -181,14 +199,14 @@ Print Assumptions C03_circuitgen_correct_any_threshold.
 (* Source to gates: for every typed Mini program p whose lowering satisfies
    cg_wf and every input vector, the generated circuit computes the outputs of
    the reference interpreter. *)
-Theorem C03_compile_correct_partial : forall p inp,
+Theorem C03_compile_correct : forall p inp,
   typed p -> cg_wf (lower p) = true ->
   eval_circuit (circuit_of_ssa (lower p)) (input_bits (sp_inputs (lower p)) inp) = exec_mini p inp.
-Proof. exact compile_correct_partial. Qed.
-Print Assumptions C03_compile_correct_partial.
+Proof. exact compile_correct. Qed.
+Print Assumptions C03_compile_correct.
 
 (* What cg_wf leaves out, as a statement: only the opcodes without a model
-   (concat bts btc circ builtin decode to Ounsupported). *)
+   (circ, a builtin other than Hamming, floating point: they decode to Ounsupported). *)
 Theorem C03_cg_wf_excludes : forall i, cg_wf_instr i = true -> i_op i <> Ounsupported.
 Proof. exact cg_wf_instr_opcodes. Qed.
 Print Assumptions C03_cg_wf_excludes.
@@ -211,3 +229,24 @@ Theorem C03_cg_example_runs :
   exec_mini ex_prog [200; 77]%N = [208; 8; 1]%N.
 Proof. exact ex_runs. Qed.
 Print Assumptions C03_cg_example_runs.
+
+(* Non-vacuity for the opcodes the lowering never emits and for GMW: an SSA
+   program with concat, bts, btc, hamming, udiv / umod with a literal divisor
+   in a wider container and a narrower result, idiv with operands of different widths, imod
+   satisfies cg_wf, and its circuit evaluated in the kernel returns eval_ssa;
+   a division-free variant satisfies cg_wf_tg true and its GMW circuit does. *)
+Theorem C03_cg_example_new_opcodes :
+  cg_wf ex_ssa = true /\
+  eval_circuit (circuit_of_ssa ex_ssa) (input_bits [8; 8; 8]%nat [200; 249; 0x5a]%N)
+  = eval_ssa ex_ssa [200; 249; 0x5a]%N /\
+  eval_ssa ex_ssa [200; 249; 0x5a]%N = [51290; 1; 1; 6; 40; 83; 4; 0]%N.
+Proof. exact (conj ex_ssa_wf (conj (proj1 ex_ssa_runs) (proj1 (proj2 ex_ssa_runs)))). Qed.
+Print Assumptions C03_cg_example_new_opcodes.
+
+Theorem C03_cg_example_gmw :
+  cg_wf_tg true ex_ssa_gmw = true /\ cg_wf_tg true ex_ssa = false /\
+  eval_circuit (circuit_of_ssa_gen multiplierArrayTresholds 0 true ex_ssa_gmw)
+               (input_bits [8; 8; 8]%nat [200; 249; 0x5a]%N)
+  = eval_ssa ex_ssa_gmw [200; 249; 0x5a]%N.
+Proof. exact (conj (proj1 ex_ssa_gmw_wf) (conj (proj2 ex_ssa_gmw_wf) (proj1 ex_ssa_gmw_runs))). Qed.
+Print Assumptions C03_cg_example_gmw.
